@@ -87,7 +87,7 @@ def harness_line(c):
             ptrust = loc['cert']
             pmode = 'ss'
         t += [f'pmode={pmode}', f'ptrust={ptrust}', f'pcert={p["cert"]}', f'pkey={p["key"]}', 'pauthz=0']
-        if c['side'] == 'server' and pmode == 'ca':
+        if c['side'] in ('server', 'ffiserver') and pmode == 'ca':
             t.append(f'pname={loc["san"] or "-"}')
     return ' '.join(t)
 
@@ -99,7 +99,7 @@ def to_coq(c):
     cert = (f'{{| chains_to_authority := {b(g["chains"])}; identical_to_configured := {b(g["identical"])}; '
             f'within_validity := {b(g["valid"])}; name_matches := {b(g["name"])}; cert_exts := {exts} |}}')
     peer = f'{{| offers12 := {b(g["offers12"])}; offers13 := {b(g["offers13"])}; presented := {cert} |}}'
-    side = 'ServerSide' if c['side'] == 'server' else 'ClientSide'
+    side = 'ServerSide' if c['side'] in ('server', 'ffiserver') else 'ClientSide'
     mn = 'V1_2' if c['min'] == '12' else 'V1_3'
     mode = 'AuthorityBased' if c['mode'] == 'ca' else 'SelfSigned'
     ep = (f'{{| e_side := {side}; e_min := {"TLS12" if c["min"] == "12" else "TLS13"}; e_mode := {"ModeAuthority" if c["mode"] == "ca" else "ModeSelfSigned"}; '
@@ -139,6 +139,11 @@ def grid(full):
                         for label, trust, local, pres in scen:
                             add(cell('server', mn, mode, authz, None, trust, local, peer, offer, pres, label))
             add(cell('server', mn, mode, True, None, scen[1][1], scen[1][2], 'plain', 'both', None, 'modbus-in-clear'))
+            # the same server created through the C ABI (rodbus_server_create_tls / _with_authz), independent peer
+            for authz in (True, False):
+                for offer in ('12', '13', 'both'):
+                    for label, trust, local, pres in scen:
+                        add(cell('ffiserver', mn, mode, authz, None, trust, local, 'openssl', offer, pres, label))
     # ------------------------------------------------ rodbus client under test
     client_ca = [  # (label, expected name, trust CA, local client cert, presented server cert)
         ('valid', 'test.com', 'repoCA', 'repo/client', 'repo/server'), ('valid2', 'test.com', 'ca2', 'ca2/client', 'ca2/server'),
@@ -159,6 +164,13 @@ def grid(full):
                     add(cell('client', mn, 'ca', False, name, trust, local, peer, offer, pres, label))
                 for label, trust, local, pres in client_ss:
                     add(cell('client', mn, 'ss', False, None, trust, local, peer, offer, pres, label))
+    # the client created through the C ABI (rodbus_client_channel_create_tls), independent peer
+    for mn in ('12', '13'):
+        for offer in ('12', '13', 'both'):
+            for label, name, trust, local, pres in client_ca:
+                add(cell('fficlient', mn, 'ca', False, name, trust, local, 'openssl', offer, pres, label))
+            for label, trust, local, pres in client_ss:
+                add(cell('fficlient', mn, 'ss', False, None, trust, local, 'openssl', offer, pres, label))
     if full:
         return cells
     # core grid: every version cell with a valid certificate against the independent peer, plus one
@@ -179,6 +191,9 @@ def grid(full):
     return core
 
 
+SIDE_NAMES = {'ffiserver': 'server created through the C ABI', 'fficlient': 'client created through the C ABI'}
+
+
 def judge(c, impl, want):
     """compare one harness result with an expected 'OK:ver:role' / 'REFUSED'; returns None or a description"""
     parts = impl.split(':')
@@ -191,9 +206,9 @@ def judge(c, impl, want):
     if res == 'OK':
         if ver != '-' and ver != w[1]:
             return f'negotiated {ver} but expected {w[1]}'
-        if c['side'] == 'server' and roles != w[2]:
+        if c['side'] in ('server', 'ffiserver') and roles != w[2]:
             return f'role seen by the authorization handler {roles} but expected {w[2]}'
-        if c['side'] == 'server' and calls != '1':
+        if c['side'] in ('server', 'ffiserver') and calls != '1':
             return f'{calls} handler calls for one request'
     else:
         if calls != '0' or roles != '-':
@@ -269,7 +284,7 @@ def run(ctx):
         if cls in seen or len(seen) >= 4:
             continue
         seen.add(cls)
-        ctx.violation(key_of(c, i, spec), f'rodbus TLS {c["side"]} (min TLS 1.{c["min"][1]}, {"authority" if c["mode"] == "ca" else "self-signed"} mode, '
+        ctx.violation(key_of(c, i, spec), f'rodbus TLS {SIDE_NAMES.get(c["side"], c["side"])} (min TLS 1.{c["min"][1]}, {"authority" if c["mode"] == "ca" else "self-signed"} mode, '
                       f'{"with" if c["authz"] else "without"} authorization) against a {c["peer"]} peer offering {c["offer"]} presenting a {c["label"]} certificate: {d} (harness: {i}, Spec: {spec})',
                       {'cases': [c], 'impl': i, 'spec': spec, 'harness_line': harness_line(c), 'ground_truth': truth(c)})
     ctx.oblige('correspondence:tls-handshake-grid', n_spec == 0 and n_model == 0, f'{n_model} model / {n_spec} spec mismatches in {len(cells)} cells')
@@ -279,7 +294,7 @@ def run(ctx):
                   f'authz:{int(c["authz"])}', 'expected:' + b.split('#')[1].split(':')[0]):
             classes[k] = classes.get(k, 0) + 1
     if not ctx.replay:
-        need = ['side:server', 'side:client', 'min:12', 'min:13', 'mode:ca', 'mode:ss', 'peer:openssl', 'peer:rodbus', 'peer:plain', 'offer:12', 'offer:13',
+        need = ['side:server', 'side:client', 'side:ffiserver', 'side:fficlient', 'min:12', 'min:13', 'mode:ca', 'mode:ss', 'peer:openssl', 'peer:rodbus', 'peer:plain', 'offer:12', 'offer:13',
                 'offer:both', 'cert:valid', 'cert:wrong-authority', 'cert:wrong-name', 'cert:expired', 'cert:not-yet-valid', 'cert:role-less', 'cert:other-role', 'cert:two-roles',
                 'expected:OK', 'expected:REFUSED']
         ctx.oblige('grid-reaches-expected-classes', all(classes.get(k, 0) >= 1 for k in need), str({k: classes.get(k, 0) for k in need}))
